@@ -54,7 +54,7 @@ def _child(kind: str, workdir: Path, mode: str, n: int | None = None, timeout: i
     env["OMP_NUM_THREADS"] = "1"
     cmd = [sys.executable, "-m", "harness.c27_child", kind, str(workdir), mode] + ([str(n)] if n is not None else [])
     p = subprocess.run(cmd, cwd=str(ROOT), env=env, capture_output=True, text=True, timeout=timeout)
-    if p.returncode not in (0, 77):
+    if p.returncode not in (0, 77, 78):
         raise MachineryError(f"C27 child failed rc={p.returncode}: {p.stderr[-1500:]}")
     return p.returncode
 
@@ -64,9 +64,10 @@ def kill_worker(job: dict) -> dict:
     import torch
 
     wd = Path(job["dir"])
-    rc = _child(job["kind"], wd, "kill", job["n"])
-    out = {"job": job, "killed": rc == 77, "ok": None, "why": None}
-    if rc != 77:
+    mode = job.get("mode", "kill")
+    rc = _child(job["kind"], wd, mode, job["n"])
+    out = {"job": job, "killed": rc == (77 if mode == "kill" else 78), "ok": None, "why": None}
+    if not out["killed"]:
         return out
     base = None
     evf = wd / "events.ndjson"
@@ -272,20 +273,27 @@ def run(ctx: Ctx) -> None:
         for k in chosen:
             for (n, label, pc) in kills[k - 1]:
                 jobs.append({"kind": kind, "save": k, "n": n, "label": label, "pc": pc, "dir": str(ctx.work / f"kill_{kind}_{k}_{n}")})
+        # the other kind of crash: an exception inside the save (interrupt, out of memory, failing write) unwinds the stack, so
+        # with-blocks close files and finally-clauses run before the process ends; injected at the same points of two saves
+        for k in chosen[:2]:
+            for (n, label, pc) in kills[k - 1]:
+                if label != "after the save returned":
+                    jobs.append({"kind": kind, "save": k, "n": n, "label": label, "pc": pc, "mode": "raise", "dir": str(ctx.work / f"raise_{kind}_{k}_{n}")})
     results = pmap(kill_worker, jobs)
     for r in results:
         j = r["job"]
         saves, kills, pred, ref_occ = plans[j["kind"]]
         if not r["killed"]:
             raise MachineryError(f"{j['kind']}: kill point {j['n']} ({j['label']}) was never reached")
-        p = pred.get((j["save"], j["pc"]))
+        p = pred.get((j["save"], j["pc"])) if j.get("mode", "kill") == "kill" else None     # the model's crash is a process death
         if j["label"] == "after the save returned":
             p = True if p is None else p
-        ctx.case(("kill", j["kind"], j["save"], j["n"]), sample={"kind": j["kind"], "save": j["save"], "crash": j["label"], "real_loadable": r["ok"], "model_loadable": p})
+        ctx.case((j.get("mode", "kill"), j["kind"], j["save"], j["n"]), sample={"kind": j["kind"], "save": j["save"], "crash": j["label"], "real_loadable": r["ok"], "model_loadable": p})
         ctx.traces_validated += 1
         if not r["ok"]:
-            ctx.violation(f"autosave:crash-window:{j['label']}",
-                          f"process death during autosave #{j['save']} {j['label']} leaves no loadable snapshot under the advertised name ({r['why']})",
+            how = "process death" if j.get("mode", "kill") == "kill" else "exception raised"
+            ctx.violation(f"autosave:crash-window:{j['label']}" + ("" if j.get("mode", "kill") == "kill" else ":exception"),
+                          f"{how} during autosave #{j['save']} {j['label']} leaves no loadable snapshot under the advertised name ({r['why']})",
                           {"kind": j["kind"], "save": j["save"], "instruction": j["n"], "protocol": saves[j["save"] - 1], "why": r["why"], "model_predicted_loadable": p})
         else:
             import numpy as np
